@@ -62,9 +62,23 @@ def one_layout(cid, lay, B, rng, which):
                 ohv = OHV._calc_ohvmat(2, hm, xmap, mem=rng.choice([1, 2, None]))
                 ro, ok2 = ints(ohv)
                 c["crosses"] = np.asarray(xmap).astype(int).tolist(); c["ohv"] = ro.tolist(); c["hfin"] = c["hfin"] and ok2
-                prob = OPV.from_pgmat_gpmod(nhaploblk=B, pgmat=pg, gpmod=gm, ndecn=2, decn_space=np.arange(n),
-                                            decn_space_lower=np.repeat(0, 2), decn_space_upper=np.repeat(n - 1, 2), nobj=T)
                 sets = [sorted(rng.sample(range(n), rng.randrange(1, n + 1))) for _ in range(3)]
+                if rng.random() < 0.5:
+                    # the problem is built for OTHER marker effects and evaluated (whatever it memoises is filled), then its
+                    # block values are replaced -- through the setter or in place -- by the ones this case is about
+                    gm0 = DenseAdditiveLinearGenomicModel(beta=np.zeros((1, T)), u_misc=None, u_a=u + 1.0,
+                                                          trait=np.array(["t%d" % k for k in range(T)], dtype=object))
+                    prob = OPV.from_pgmat_gpmod(nhaploblk=B, pgmat=pg, gpmod=gm0, ndecn=2, decn_space=np.arange(n),
+                                                decn_space_lower=np.repeat(0, 2), decn_space_upper=np.repeat(n - 1, 2), nobj=T)
+                    prob.latentfn(np.array(sets[0])); prob.evalfn(np.array(sets[-1][:1] * 2))
+                    if np.asarray(prob.haplomat).shape == np.asarray(hm).shape and rng.random() < 0.5:
+                        prob.haplomat[...] = hm
+                    else:
+                        prob.haplomat = np.array(hm, copy=True)
+                    c["edited"] = True
+                else:
+                    prob = OPV.from_pgmat_gpmod(nhaploblk=B, pgmat=pg, gpmod=gm, ndecn=2, decn_space=np.arange(n),
+                                                decn_space_lower=np.repeat(0, 2), decn_space_upper=np.repeat(n - 1, 2), nobj=T)
                 c["opvsets"] = sets
                 rp, ok3 = ints(np.array([prob.latentfn(np.array(s)) for s in sets]))
                 c["opv"] = rp.tolist(); c["hfin"] = c["hfin"] and ok3
